@@ -454,7 +454,8 @@ Definition cres_eqb (a b : cres) : bool :=
 
 (* Running the generated iterator / builders over the parts the operation
    reaches.  [dynamic]: a [TDyn] slot asks the cache at run time (iterator); the
-   builder side uses the interface builders of the root session instead.
+   builder side fills an interface-typed slot with the interface builders of the
+   root session and never asks the session cache.
    Result: cache, outcome, and the names of the leaves visited (stands for the
    output produced so far). *)
 Fixpoint visit (dynamic : bool) (c : cache) (t : ty) (tr : list N) : cache * cres * list N :=
@@ -463,7 +464,7 @@ Fixpoint visit (dynamic : bool) (c : cache) (t : ty) (tr : list N) : cache * cre
       if dynamic then
         let '(c1, ok) := gen c inner in
         if ok then visit dynamic c1 inner tr else (c1, CErr, tr)
-      else visit dynamic c inner tr
+      else (c, COk, tr)
   | _ =>
     match lookup (erase t) c with
     | Some false => (c, CHang, tr)         (* placeholder never released: wg.Wait() *)
